@@ -346,15 +346,33 @@ def nesting_profile(f, builtin=False):
                 prof.setdefault('literal ' + str(n['v'])[2:], []).append(d)
             elif k == 'try':
                 prof.setdefault('operator ?', []).append(d)
+            elif k == 'assign':
+                l = peel(n['lhs'])
+                what = ('.' + str(l.get('n'))) if l.get('k') == 'field' else ('[..]' if l.get('k') == 'index' else 'variable')
+                prof.setdefault('store ' + what, []).append(d)          # a plain assignment (state update, reset, cursor move)
             elif k == 'cast' and n.get('t'):
                 prof.setdefault('cast as ' + str(n['t']), []).append(d)
             elif k == 'struct' and 'ops::range::' in (n.get('p') or ''):
                 prof.setdefault('range inclusive' if 'Inclusive' in str(n['p']) else 'range', []).append(d)
         if k == 'if':
+            # `if c { return e; } rest`  and  `if c { return e } else { rest }`  are one shape: the arm opposite to a diverging arm stays at the current depth
+            from ..engines.taint import diverges
+
+            def exits(arm):
+                if diverges(arm):
+                    return True
+                t = peel(arm)
+                while t.get('k') == 'block' and isinstance(t.get('e'), dict) and not t.get('ss'):
+                    t = peel(t['e'])
+                if t.get('k') == 'block' and isinstance(t.get('e'), dict):
+                    t = peel(t['e'])
+                return t.get('k') == 'call' and (t.get('f') or '').endswith('Result::Err')
+            a_div = exits(n['a'])
+            b_div = 'b' in n and exits(n['b'])
             rec(n['c'], d)
-            rec(n['a'], d + 1)
+            rec(n['a'], d if b_div and not a_div else d + 1)
             if 'b' in n:
-                rec(n['b'], d + 1)
+                rec(n['b'], d if a_div and not b_div else d + 1)
             return
         if k == 'match' and n.get('src') == 'match':
             rec(n['e'], d)
@@ -400,6 +418,8 @@ def use_profile(f):
         while e.get('k') in ('try', 'cast', 'stmt') or (e.get('k') == 'mcall' and not e.get('args') and (callee(e) or '').rsplit('::', 1)[-1] in PLUMBING):
             e = peel(e['recv'] if e.get('k') == 'mcall' else e['e'])
         k = e.get('k')
+        if k == 'block' and isinstance(e.get('e'), dict):
+            return origin(e['e'], depth)          # the value of a block is its tail expression
         if k == 'lit':
             return 'literal'
         if k == 'path':
